@@ -11,6 +11,11 @@ type Program struct {
 	Run     uint64  `json:"run"`
 	Pool    Pool    `json:"pool"`
 	Epochs  []Epoch `json:"epochs"`
+	// Cold: the first epoch's concurrent pass runs before its sequential
+	// reference pass, so that the callers meet whatever the library builds
+	// lazily in its untouched state. Only meaningful for the first program a
+	// process executes (replays run in a fresh process).
+	Cold bool `json:"cold,omitempty"`
 }
 
 // Pool describes by-reference inputs that several tasks share.
